@@ -423,7 +423,7 @@ def build_flat_deck(rng, nsurf=None, ncells=None, depth=None, macro_p=0.25, tr_p
     ncells = ncells or rng.randint(1, 5)
     depth = depth if depth is not None else rng.randint(1, 4)
     t, exprs = world_and_cells(rng, refs, ncells, depth)
-    ids = rng.sample(range(1, 60), len(exprs))
+    ids = rng.sample(range(1, 60) if rng.random() < 0.7 else range(1, len(exprs) + 3), len(exprs))
     idmap = dict(zip(sorted(exprs), ids))
     order = sorted(exprs)
     rng.shuffle(order)
@@ -460,6 +460,19 @@ def build_flat_deck(rng, nsurf=None, ncells=None, depth=None, macro_p=0.25, tr_p
     # '#n' chains must be acyclic: a cell that references #o where o references … the cc_cell
     _break_cc_cycles(d)
     d.mats = {1: [('13027', '1.0')], 2: [('26056', '-0.9'), ('6012', '-0.1')]}
+    if rng.random() < 0.25:
+        # surface numbers just above the largest cell number: the range in which the converter allocates its own
+        # numbers (tree nodes, helper volumes, generated cells) — a user surface may carry any of them
+        top = max(c.id for c in d.cells)
+        off = top + rng.randint(0, 3)
+        m = {s.id: s.id + off for s in d.surfs}
+        if rng.random() < 0.5:
+            step = rng.randint(2, 4)
+            m = {s.id: off + 1 + (s.id - 1) * step for s in d.surfs}
+        for s in d.surfs:
+            s.id = m[s.id]
+        for c in d.cells:
+            c.expr = D.expr_map_surfs(c.expr, m)
     return d
 
 
